@@ -56,6 +56,7 @@ type StepObs struct {
 	Pair   string   `json:"pair,omitempty"`   // faults: did the good writer/reader pair still relay
 	Note   string   `json:"note,omitempty"`
 	Events []Ev     `json:"events,omitempty"`
+	Count  int      `json:"count,omitempty"` // pop-final: connections of the crowded topic the relay lists at the end
 	Done   bool     `json:"done,omitempty"`
 	Dump   string   `json:"dump,omitempty"`
 }
@@ -65,6 +66,7 @@ type ScenResult struct {
 	Exit     string    `json:"exit"`
 	Finished bool      `json:"finished"`
 	Steps    []StepObs `json:"steps"`
+	PopFinal int       `json:"pop_final,omitempty"`
 	Stderr   string    `json:"stderr,omitempty"`
 	Dump     string    `json:"dump,omitempty"`
 }
@@ -792,6 +794,14 @@ func (c *child) runFaults() {
 			c.fail(i, so)
 		}
 		c.emit(so)
+	}
+	for _, st := range c.sc.Steps {
+		if st.K == "population" {
+			if l, err := c.settled("c08-pop-"); err == nil {
+				c.emit(StepObs{K: "pop-final", Count: len(l), Canary: "ok"})
+			}
+			break
+		}
 	}
 }
 
